@@ -204,6 +204,7 @@ def ledger_episode(ctx, props, chain=False, discrete=False, prebuilt=None):
     acts, outs = [], []
     reuse_buffer = rng.random() < 0.25
     buf = None
+    fork_at = rng.randint(1, 4) if rng.random() < 0.2 else None
     if reuse_buffer and not discrete:
         ctx.cat("action-buffer-reused-in-place")
     with Mon(sink) as mon:
@@ -241,6 +242,26 @@ def ledger_episode(ctx, props, chain=False, discrete=False, prebuilt=None):
                 buf[:] = a
                 acts[-1] = np.array(a, dtype=float)
                 a = buf
+            if fork_at == k and not done:
+                # a what-if fork: the running environment is deep-copied (or pickled and restored), the copy is
+                # stepped ahead with other actions and thrown away; the original then carries on as if nothing
+                # had happened
+                import copy
+                import pickle
+                counters = (mon.n_rebalance, mon.n_transact)
+                try:
+                    fork = copy.deepcopy(env) if rng.random() < 0.6 else pickle.loads(pickle.dumps(env))
+                    for _j in range(rng.randint(1, 3)):
+                        fa = rng.randrange(len(cfg["allocs"])) if discrete else a * rng.choice([-1.0, 0.5, 0.0])
+                        if fork.step(fa)[2]:
+                            break
+                    ctx.cat("forked-mid-episode")
+                except EndOfEpisodeError:
+                    ctx.cat("forked-mid-episode")
+                finally:
+                    AbstractContract.now = env.now() if env.now() is not None else AbstractContract.now
+                    mon.n_rebalance, mon.n_transact = counters      # (the fork's calls are not this episode's)
+                del sink.log[mark:]      # (the fork's observer is a copy; nothing of it belongs to this log)
             try:
                 o, r, done, info = env.step(a)
             except EndOfEpisodeError:
